@@ -7,16 +7,57 @@ import contracts.syntax      # abstract Segment
 set_scope('contracts.error_997')
 
 VIS = Obj('pyx12.error_997.error_997_visitor', fd=Obj('ext.TextOutRaw', log=ListOf(Str)), seg_term=Str, ele_term=Str,
-          subele_term=Str, eol=Str, seg_count=Int)
-
+          subele_term=Str, eol=Str, seg_count=Int, st_control_num=Int, st_loop_count=Int)
+FRAME = ['self.st_control_num == old(self.st_control_num)', 'self.st_loop_count == old(self.st_loop_count)',
+         'self.seg_term == old(self.seg_term) and self.ele_term == old(self.ele_term) and self.subele_term == old(self.subele_term)']
 contract('pyx12.error_997.error_997_visitor._write',
          self_type=VIS,
          params={'seg_data': Opaque('Segment')},
          returns=NoneT,
          ensures=['self.seg_count == old(self.seg_count) + 1',
                   'len(self.fd.log) == len(old(self.fd.log)) + 1',
-                  "seg_data.get_seg_id() == 'ISA' or self.fd.log[-1] == seg_data.format(self.seg_term, self.ele_term, self.subele_term) + '\\n'"],
+                  "seg_data.get_seg_id() == 'ISA' or self.fd.log[-1] == seg_data.format(self.seg_term, self.ele_term, self.subele_term) + '\\n'",
+                  'self.fd.log[:-1] == old(self.fd.log)'] + FRAME,
          raises={},
+         modifies=['seg_count', 'fd.log'],
          serves=['C06'],
          note='every segment of the acknowledgement goes through _write exactly once and is counted once: SE01 = seg_count + 1 is taken '
               'from this counter in visit_gs_post')
+
+contract('absmut:pyx12.segment.Segment.__init__',
+         self_type=Obj('pyx12.segment.Segment'),
+         params={'seg_str': Opt(Str), 'seg_term': Str, 'ele_term': Str, 'subele_term': Str, 'repetition_term': Str},
+         returns=MutOpaque('Segment'),
+         raises={},
+         assume_only=True,
+         note='constructor used abstractly by the 997 visitor (segments built from literals and %-formatted integers): total for '
+              'string delimiters of one character (real constructor: contracts/segment.py on bounded texts + bounded stand-in)')
+
+ABS_SEG = {'pyx12.segment.Segment.__init__': 'absmut:pyx12.segment.Segment.__init__'}
+GS = Obj('pyx12.error_handler.err_gs', fic=Opt(Str), gs_control_num=Opt(Str), ack_code=Opt(Str), st_count_orig=Opt(Int), st_count_recv=Opt(Int))
+
+contract('pyx12.error_997.error_997_visitor.visit_gs_pre',
+         self_type=VIS,
+         params={'err_gs': GS},
+         returns=NoneT,
+         ensures=['self.seg_count == 2',
+                  'self.st_control_num == old(self.st_control_num) + 1',
+                  'self.st_loop_count == old(self.st_loop_count) + 1',
+                  'len(self.fd.log) == len(old(self.fd.log)) + 2'],
+         raises={},
+         alias=ABS_SEG,
+         serves=['C06'],
+         note='opening an acknowledgement set writes exactly ST and AK1 and leaves the counter at 2 = segments of the open set '
+              '(ST included): the counter invariant that visit_gs_post turns into SE01')
+
+contract('pyx12.error_997.error_997_visitor.visit_st_pre',
+         self_type=VIS,
+         params={'err_st': Obj('pyx12.error_handler.err_st', trn_set_id=Opt(Str), trn_set_control_num=Opt(Str))},
+         returns=NoneT,
+         ensures=['self.seg_count == old(self.seg_count) + 1', 'len(self.fd.log) == len(old(self.fd.log)) + 1',
+                  'self.fd.log[:-1] == old(self.fd.log)'] + FRAME,
+         raises={'EngineError': 'err_st.trn_set_id is None', 'AttributeError': 'err_st.trn_set_id is not None and err_st.trn_set_control_num is None'},
+         alias=ABS_SEG,
+         serves=['C06'],
+         note='AK2: one segment written and counted.  The two exceptional outcomes (an err_st whose ST01/ST02 are None) are stated '
+              'exactly, not excluded; whether the validator can hand over such an err_st is decided by the pipeline stand-in, not here')
